@@ -108,7 +108,10 @@ def convert_facebook_url_to_mobile(url):
 
     has_protocol = safe_url == url
 
-    scheme, netloc, path, query, fragment = urlsplit(safe_url)
+    try:
+        scheme, netloc, path, query, fragment = urlsplit(safe_url)
+    except ValueError:
+        netloc = ""
 
     if "facebook" not in netloc:
         raise TypeError(
